@@ -1,5 +1,5 @@
 # replay of a bounded stand-in violation (C16): re-run native/c16_states.py
 import sys
-print('bosonic n=3 pure=True gaussian: reduced_dm([1, 2]) has shape (8, 8, 8, 8, 8, 8), expected two indices per mode')
+print('fock n=2 pure=True cat-complex: parity_expectation([1]) = -0.10379 but sum_n (-1)^n p(n) from reduced_dm = 0.19557')
 print('REPLAY-VIOLATION')
 sys.exit(1)
